@@ -15,8 +15,8 @@ VARIANT_NAMES = ["Alpha", "Beta", "Gamma", "Delta", "Eps", "Zeta", "Eta", "Theta
 
 class T:
     """a type expression with the attributes the registry needs"""
-    def __init__(self, rust, maxsize=True, json=True, nullable=False, generic=False):
-        self.rust, self.maxsize, self.json, self.nullable, self.generic = rust, maxsize, json, nullable, generic
+    def __init__(self, rust, maxsize=True, json=True, nullable=False, generic=False, strict=True):
+        self.rust, self.maxsize, self.json, self.nullable, self.generic, self.strict = rust, maxsize, json, nullable, generic, strict
 
 
 def leaf(r):
@@ -33,33 +33,33 @@ def ty(r, depth, defined, generic_param=None):
         return leaf(r)
     if roll < 0.50:
         i = ty(r, depth + 1, defined, generic_param)
-        return T("Option<%s>" % i.rust, i.maxsize, i.json and not i.nullable, True, i.generic)
+        return T("Option<%s>" % i.rust, i.maxsize, i.json and not i.nullable, True, i.generic, i.strict)
     if roll < 0.58:
         i = ty(r, depth + 1, defined, generic_param)
         n = r.choice([0, 1, 2, 3, 4])
-        return T("[%s; %d]" % (i.rust, n), i.maxsize, i.json and n != 1, False, i.generic)
+        return T("[%s; %d]" % (i.rust, n), i.maxsize, i.json and n != 1, False, i.generic, i.strict)
     if roll < 0.68:
         k = r.choice([1, 2, 2, 2, 3, 3])
         parts = [ty(r, depth + 1, defined, generic_param) for _ in range(k)]
         rust = "(%s,)" % parts[0].rust if k == 1 else "(%s)" % ", ".join(p.rust for p in parts)
-        return T(rust, all(p.maxsize for p in parts), all(p.json for p in parts) and k != 1, False, any(p.generic for p in parts))
+        return T(rust, all(p.maxsize for p in parts), all(p.json for p in parts) and k != 1, False, any(p.generic for p in parts), all(p.strict for p in parts))
     if roll < 0.75:
         i = ty(r, depth + 1, defined, generic_param)
-        return T("Vec<%s>" % i.rust, False, i.json, False, i.generic)
+        return T("Vec<%s>" % i.rust, False, i.json, False, i.generic, i.strict)
     if roll < 0.79:
         return T("String", False, True)
     if roll < 0.87:
         i = ty(r, depth + 1, defined, generic_param)
         n = r.choice([0, 1, 3, 8])
-        return T("heapless07::Vec<%s, %d>" % (i.rust, n), i.maxsize, i.json, False, i.generic)
+        return T("heapless07::Vec<%s, %d>" % (i.rust, n), i.maxsize, i.json, False, i.generic, False)
     if roll < 0.90:
-        return T("heapless07::String<%d>" % r.choice([0, 1, 5, 16]), True, True)
+        return T("heapless07::String<%d>" % r.choice([0, 1, 5, 16]), True, True, False, False, False)
     if roll < 0.93:
         i = ty(r, depth + 1, defined, generic_param)
-        return T("std::collections::BTreeMap<String, %s>" % i.rust, False, i.json, False, i.generic)
+        return T("std::collections::BTreeMap<String, %s>" % i.rust, False, i.json, False, i.generic, False)
     if defined:
         d = r.choice(defined)
-        return T(d["use"], d["maxsize"], d["json"], d["nullable"])
+        return T(d["use"], d["maxsize"], d["json"], d["nullable"], False, d["strict"])
     return leaf(r)
 
 
@@ -151,6 +151,7 @@ def gen_item(r, idx, defined, out):
             decl = decl.replace("%s<T>" % name, name)
     maxsize = all(f.maxsize for f in fields_used)
     json = all(f.json for f in fields_used)
+    strict = all(f.strict for f in fields_used)
     derives = "Serialize, Deserialize, Schema, Debug, Clone" + (", MaxSize" if maxsize else "")
     out.append("#[derive(%s)]" % derives)
     out.append("#[allow(non_camel_case_types, dead_code)]")
@@ -170,8 +171,8 @@ def gen_item(r, idx, defined, out):
             json = False
     else:
         use = name
-    defined.append({"use": use, "maxsize": maxsize, "json": json, "nullable": nullable})
-    return use, maxsize, json
+    defined.append({"use": use, "maxsize": maxsize, "json": json, "nullable": nullable, "strict": strict})
+    return use, maxsize, json, strict
 
 
 def main():
@@ -194,13 +195,15 @@ def main():
     out.append("")
     defined, reg = [], []
     for i in range(a.n):
-        use, maxsize, json = gen_item(r, i, defined, out)
+        use, maxsize, json, strict = gen_item(r, i, defined, out)
         line = "    v.push(base::<%s>(\"%s\").schema::<%s>()" % (use, use.replace('"', ''), use)
         if maxsize:
             line += ".max::<%s>(false)" % use
         line += ".de::<%s>()" % use
         if json:
             line += ".json()"
+        if strict:
+            line += ".strict()"
         reg.append(line + ");")
     out.append("pub fn types() -> Vec<CorpusType> {")
     out.append("    let mut v: Vec<CorpusType> = vec![];")
